@@ -460,6 +460,10 @@ impl AliasParser {
         }
         // REPLACE
         let output_terms = self.get_input()?;
+        // a deromaniser cannot specify or insert syllable boundaries
+        if let Some(b) = output_terms.iter().find(|t| t.kind == AliasParseElement::SyllBound) {
+            return Err(AliasSyntaxError::BoundInDerom(b.position))
+        }
         // !EOL
         if !self.expect(AliasTokenKind::Eol) {
             return Err(AliasSyntaxError::ExpectedEndLine(self.curr_tkn.clone()))
